@@ -494,6 +494,11 @@ func stepsim(t *testing.T, tp *simrt.Tape, opts RunOpts) *Outcome {
 			if s.RetryLimit > 0 && chance(tp, 1, 2) {
 				s.RetryInterval = pick(tp, 1, 1, 2)
 			}
+			if s.Output == "" && chance(tp, 1, 3) {
+				// more captured outputs than in the plain batch: their pipe is one of the things that can fail
+				s.Output = "OUT_" + s.Name
+				s.OutText = "v-" + s.Name + "\n"
+			}
 		}
 		sc.IOFault = drawIOFaultCfg(tp)
 	}
